@@ -79,8 +79,21 @@ def source_text(case):
         refs = adj[i]
         if case.get("lib") == "builtin":
             fuzzy = case.get("fuzzy")
-            items = [name(c) for c in refs] + (["Fz"] if fuzzy else ["Src"])
-            lines.append("%s = %s(InFieldNames = [%s])" % (name(i), "FuzzyOr" if fuzzy else "Sum", ", ".join(items)))
+            base = "Fz" if fuzzy else "Src"
+            pos = (case.get("pick", 0) + i) % (len(refs) + 1)
+            items = [name(c) for c in refs]
+            items.insert(pos, base)  # the data source stands anywhere in the list
+            variants = ["FuzzyOr", "FuzzyWeightedUnion", "FuzzyUnion", "FuzzyXOr"] if fuzzy else ["Sum", "WeightedSum", "WeightedMean", "Maximum", "Mean"]
+            cmd = variants[(case.get("pick", 0) // 2 + i) % len(variants)]
+            if cmd == "FuzzyXOr" and len(items) < 2:
+                cmd = "FuzzyOr"
+            extra = ""
+            if "Weighted" in cmd:
+                ws = [[1, 0, 0.5, 0, 2][(k + case.get("pick", 0)) % 5] for k in range(len(items))]
+                if sum(ws) == 0:
+                    ws[0] = 1
+                extra = ", Weights = [%s]" % ", ".join(str(w) for w in ws)
+            lines.append("%s = %s(InFieldNames = [%s]%s)" % (name(i), cmd, ", ".join(items), extra))
             continue
         args = []
         direct = [c for c, k in zip(refs, kinds[i]) if k == "d"]
@@ -225,7 +238,8 @@ def small_graphs(ctx):
                     yield {"n": n, "adj": adj, "kinds": kinds, "order": list(order), "lib": "testlib", "pick": bits + len(kinds[0])}
             if n <= 2 or bits % 7 == 0:
                 for fuzzy in (False, True):
-                    yield {"n": n, "adj": adj, "kinds": None, "order": list(range(n)), "lib": "builtin", "fuzzy": fuzzy}
+                    for pick in range(0, 10, 3 if ctx.quick else 1):
+                        yield {"n": n, "adj": adj, "kinds": None, "order": list(range(n)), "lib": "builtin", "fuzzy": fuzzy, "pick": pick}
 
 
 @st.composite
